@@ -354,3 +354,54 @@ Example release_breaks_self_cycle :
   let ts := [(EMPTY_LIST, A0); (DUP, A0); (APPEND, A0)] in
   has_cycle (cells (heap_run V2 (heap_init V2) ts)) = true /\ has_cycle (final_cells V2 ts) = false.
 Proof. vm_compute. split; reflexivity. Qed.
+
+(* ---------- reference counting, made explicit ----------
+   Rc<T> frees a cell at the moment its strong count reaches zero, and freeing a cell drops the handles it
+   holds (which may bring further counts to zero).  Once the generator is reset or dropped no root (stack
+   slot, memo entry, local variable) holds a handle, so a cell's count is the number of handles held by cells
+   that are still allocated: a cell is freed as soon as every cell that points to it has been freed.
+   `freed cs i` is that inductive reading (Weak handles - the registry - do not count).  On the cell graph
+   that release_cycles leaves behind every cell is freed: nothing stays allocated. *)
+Inductive freed (cs : list hobj) : nat -> Prop :=
+| freed_intro : forall i, i < length cs -> (forall j, edge cs j i -> freed cs j) -> freed cs i.
+
+Lemma release_length : forall cs ms n, length (release_at n cs ms) = length cs.
+Proof. induction cs as [|o cs IH]; intros ms n; [reflexivity|]. cbn [release_at length]. rewrite IH. reflexivity. Qed.
+
+Theorem released_all_freed : forall ms cs, Good ms cs -> forall i, i < length cs -> freed (release cs ms) i.
+Proof.
+  intros ms cs HG.
+  assert (L : length (release cs ms) = length cs) by apply release_length.
+  (* every pointer goes from a younger to an older cell: induction from the youngest cell down *)
+  assert (H : forall k i, length cs - i <= k -> i < length cs -> freed (release cs ms) i).
+  { induction k as [|k IH]; intros i Hk Hi; [lia|].
+    apply freed_intro; [rewrite L; exact Hi|]. intros j E.
+    pose proof (release_edge_down ms cs j i HG E) as Hlt.
+    assert (Hj : j < length cs) by (rewrite <- L; apply (edge_lt _ _ _ E)).
+    apply IH; lia. }
+  intros i Hi. apply (H (length cs) i); [lia | exact Hi].
+Qed.
+
+Theorem final_cells_all_freed : forall v ts i, i < length (final_cells v ts) -> freed (final_cells v ts) i.
+Proof.
+  intros v ts i Hi. unfold final_cells in *. unfold release in Hi. rewrite release_length in Hi.
+  apply (released_all_freed ([] ++ run_mut v (heap_init v) ts)); [|exact Hi].
+  apply run_Good; [apply wf_heap_init | apply Good_nil].
+Qed.
+
+(* and the converse reading, for the record: a cell on a cycle is never freed (why finding I leaked) *)
+Lemma path_last : forall cs a b, path cs a b -> exists j, edge cs j b /\ (j = a \/ path cs a j).
+Proof.
+  intros cs a b P. induction P as [x y E|x y z E P IH].
+  - exists x. split; [exact E | left; reflexivity].
+  - destruct IH as (j & Ej & Hj). exists j. split; [exact Ej|]. right.
+    destruct Hj as [->|Hj]; [apply path_one; exact E | apply path_step with y; assumption].
+Qed.
+
+Lemma cycle_never_freed : forall cs a, path cs a a -> ~ freed cs a.
+Proof.
+  intros cs a P F. revert P. induction F as [i Hi _ IH]. intro P.
+  destruct (path_last cs i i P) as (j & Ej & [->|Pj]).
+  - apply (IH i Ej). exact P.
+  - apply (IH j Ej). apply path_step with i; assumption.
+Qed.
